@@ -19,6 +19,37 @@ class Obligation:
                 "status": self.status, "detail": self.detail}
 
 
+class Relabel:
+    """Adapter that files another property's rule part under one rule of this property (shared rows): the obligations
+    are the same, the report names the property whose statement also depends on them."""
+
+    def __init__(self, rep, rule):
+        self.rep, self.rule = rep, rule
+
+    def ok(self, rule, instance, site, detail="", nontrivial=True):
+        self.rep.ok(self.rule, f"{rule}:{instance}", site, detail, nontrivial)
+
+    def fail(self, rule, instance, site, detail):
+        self.rep.fail(self.rule, f"{rule}:{instance}", site, detail)
+
+    def check(self, cond, rule, instance, site, ok_detail="", fail_detail=""):
+        return self.rep.check(cond, self.rule, f"{rule}:{instance}", site, ok_detail, fail_detail)
+
+    def expect_min(self, rule, n):
+        pass
+
+    def part(self, f, *a, **k):
+        return self.rep.part(f, *a, **k)
+
+    def __getattr__(self, n):
+        return getattr(self.rep, n)
+
+    def __setattr__(self, n, v):
+        if n in ("rep", "rule"):
+            object.__setattr__(self, n, v)
+        # explanation / assumptions of the borrowed rule are not taken over
+
+
 class Report:
     def __init__(self, prop, tier="quick", root="/repo", seed=0):
         self.prop = prop
@@ -58,6 +89,19 @@ class Report:
 
     def error(self, msg):
         self.errors.append(msg)
+
+    def part(self, f, *a, **k):
+        """Run one rule part; an analysis gap in it is recorded and the remaining parts still run."""
+        from .loader import AnalysisError
+        try:
+            return f(*a, **k)
+        except AnalysisError as e:
+            self.error(str(e))
+        except Exception as e:  # a rule that cannot read the code is an analysis gap, not a verdict
+            import traceback
+            tb = traceback.extract_tb(e.__traceback__)[-1]
+            self.error(f"internal error in {getattr(f, '__name__', f)}: {type(e).__name__}: {e} ({os.path.basename(tb.filename)}:{tb.lineno})")
+        return None
 
     # -------------------------------------------------------------- finish
     def _known(self):
